@@ -107,7 +107,8 @@ CHECKS["C06"] = {
                        "types/structure.py:StructureMetaType._calculate_size_and_offsets", "<compiled>"],
     "required_cells": ["straddle", "aligned", "feat:bits:signed", "feat:bits:enum", "feat:bits:wide",
                        "exh:uint8:<:compiled", "exh:uint8:>:interpreted", "exh:int8:>:compiled",
-                       "exh:int8:<:interpreted", "char-units:compiled", "char-units:interpreted", "union-bit-fields"],
+                       "exh:int8:<:interpreted", "char-units:compiled", "char-units:interpreted", "union-bit-fields",
+                       "single-bit-field-structures", "enum-vs-base-bit-fields"],
     "exhaustive": {"quick": False, "thorough": False},
     "assumptions": ASSUME_COMMON,
 }
@@ -147,7 +148,8 @@ CHECKS["C08"] = {
                        "types/wchar.py:Wchar._read_array", "types/leb128.py:LEB128._read",
                        "types/structure.py:UnionMetaType._read", "<compiled>"],
     "required_cells": ["align:True", "align:False", "compiled:True", "compiled:False", "dynamic-union", "feat:union",
-                       "feat:bits", "direct-types"],
+                       "feat:bits", "direct-types",
+                       "eof-elements:struct", "eof-elements:int24", "eof-elements:uleb128"],
     "assumptions": ASSUME_COMMON + ["faults are injected at read() calls of file-like streams; bytes inputs are "
                                     "covered through the cut points"],
 }
@@ -296,14 +298,16 @@ CHECKS["C15"] = {
     "level": "exploration",
     "shards": {"quick": 16, "thorough": 32},
     "budget": {"quick": 50, "thorough": 420},
-    "rule": "ten workloads (expression-sized arrays, bit-fields+enums incl. dumping, unions with member assignment, "
+    "rule": "twelve workloads (expression-sized arrays, bit-fields+enums incl. dumping, unions with member assignment, "
             "dereferenced pointers, nested arrays of structures with null-terminated wchar, LEB128 parse+dump, "
             "wchar/multi-dimensional/expression tails, null-terminated arrays of structures, unknown enum/flag values "
-            "(pseudo-members created while threads interleave), parse + construct-and-dump + default construction) x "
+            "(pseudo-members created while threads interleave), parse + construct-and-dump + default construction, "
+            "unary operators in lengths, unions written through a member that is not the first) x "
             "{compiled, interpreted}; 2-3 threads run jobs on independent streams with shared type objects under a "
             "deterministic scheduler that makes every source line of the library (thorough: every bytecode instruction "
             "of expression.py/bitbuffer.py) a yield point; ALL single-preemption schedules (both starting threads) are "
-            "enumerated, plus random 2-6-preemption schedules with 2 and 3 threads (thorough: all two-preemption "
+            "enumerated on warm types and again on cold ones (a fresh cstruct object per schedule, so lazily created "
+            "state is created while the threads interleave; quick: every third), plus random 2-6-preemption schedules with 2 and 3 threads (thorough: all two-preemption "
             "schedules of the small workloads) and a free-running stress run; one evaluation = one schedule; a "
             "schedule is non-trivial when a switch actually happened at a library yield point",
     "anchors": ["expression.py", "types/base.py", "types/structure.py", "bitbuffer.py"],
@@ -313,7 +317,8 @@ CHECKS["C15"] = {
     "required_cells": ["workload:expr:compiled", "workload:expr:interpreted", "workload:bits:compiled",
                        "workload:union:interpreted", "workload:ptr:compiled", "workload:nested:interpreted",
                        "workload:leb:compiled", "workload:wide:interpreted", "workload:nullstructs:compiled",
-                       "workload:enums:interpreted", "workload:dumpmix:compiled"],
+                       "workload:enums:interpreted", "workload:dumpmix:compiled", "workload:exprneg:compiled",
+                       "workload:exprneg:interpreted", "workload:unionwrite:interpreted"],
     "assumptions": ASSUME_COMMON + ["context switches are modelled at source-line granularity (CPython can switch "
                                     "between bytecodes; thorough adds instruction granularity for the evaluator and the "
                                     "bit buffer)"],
@@ -360,7 +365,8 @@ CHECKS["C11"] = {
     "required_cells": ["pinned-witnesses", "align:True", "align:False", "shape:top", "shape:field", "shape:anon", "route:direct",
                        "route:nested-via-proxy", "route:nested-deep", "route:anonymous-struct-field",
                        "route:array-replace", "route:nested-union", "route:explicit-offset-member",
-                       "shape:explicit-offsets", "held-reference", "route:refused-assignment", "route:array-assigned-back"],
+                       "shape:explicit-offsets", "held-reference", "route:refused-assignment", "route:array-assigned-back",
+                       "route:refused-nested-assignment"],
     "assumptions": ASSUME_COMMON + ["an assignment writes the member's full encoding (its padding as zero) into the "
                                     "union's bytes"],
 }
@@ -403,7 +409,8 @@ CHECKS["C14"] = {
                        "cstruct.py:cstruct.add_type", "types/packed.py:_struct"],
     "required_cells": ["op:default", "op:keyword", "op:mutate", "op:parse", "op:failparse", "op:endian", "op:load",
                        "op:add_type", "two-cstructs-same-names", "load-histories", "load-histories:align",
-                       "load-histories:compiled"],
+                       "load-histories:compiled",
+                       "deepcopy:union", "deepcopy:plain", "custom-type-on-several-cstructs"],
     "assumptions": ASSUME_COMMON,
 }
 
@@ -422,7 +429,8 @@ CHECKS["C18"] = {
                        "parser.py:TokenParser._struct", "compiler.py:Compiler.compile_read"],
     "required_cells": ["pattern:all-single", "pattern:mixed", "transition:becomes-dynamic", "transition:gains-bit-fields",
                        "transition:alignment-grows", "self-reference", "instances-exist-before-extension",
-                       "batch-left-by-exception", "discard-fields-sequence", "array-of-intermediate-state", "refused-extension-in-between"],
+                       "batch-left-by-exception", "discard-fields-sequence", "array-of-intermediate-state", "refused-extension-in-between",
+                       "container-declared-before-member-extension"],
     "assumptions": ASSUME_COMMON,
 }
 
@@ -485,8 +493,9 @@ MANIFEST_TEXT = {
     },
     "C15": {
         "text": "Systematic schedule exploration of real threads running the real library: a sys.monitoring-based "
-                "deterministic scheduler turns every library source line into a yield point; for six workloads in both "
-                "reader modes every single-preemption schedule is executed (exhaustive for that bound), plus random "
+                "deterministic scheduler turns every library source line into a yield point; for twelve workloads in both "
+                "reader modes every single-preemption schedule is executed (exhaustive for that bound) on warm and on "
+                "cold (freshly loaded) types, plus random "
                 "multi-preemption schedules with 2-3 threads (and all two-preemption schedules of the small workloads "
                 "in thorough); each thread's result must equal its sequential result. The schedules, yield points and "
                 "distinct switch points seen are reported.",
